@@ -17,7 +17,7 @@ import os
 from vlib import core
 from vlib.core import sh2
 
-SRCS = ["c05.c", "c05_k_ccolor.c", "c05_k_dcolor.c", "c05_k_dmerge.c", "c05_k_csample.c", "c05_k_dsample.c", "c05_k_quant.c"]
+SRCS = ["c05.c", "c05_k_ccolor.c", "c05_k_dcolor.c", "c05_k_dmerge.c", "c05_k_csample.c", "c05_k_dsample.c", "c05_k_quant.c", "c05_k_huff.c", "c05_k_phuff.c"]
 ENVS = {"none": {"JSIMD_FORCENONE": "1"}, "sse2": {"JSIMD_FORCESSE2": "1"}, "avx2": {}}
 CLEAN = {"JSIMD_FORCENONE": "", "JSIMD_FORCESSE2": "", "JSIMD_FORCEAVX2": "", "JSIMD_NOHUFFENC": ""}
 # J_COLOR_SPACE values of the extended RGB layouts + JCS_RGB (= 2)
@@ -136,6 +136,33 @@ def kernel_cases(ctx):
         else:
             blk = [max(-128, min(127, (x * rng.range(-20, 20) + y * rng.range(-20, 20)) * amp // 128)) for y in range(8) for x in range(8)]
         cases.append(("fdctfst " + " ".join(map(str, blk)), "k-fdctfst-" + ("low" if amp <= 60 else "high")))
+    # Huffman encoding of one block: boundary blocks (all zero, only the last coefficient, runs 15/16/17/31/32, maximal
+    # magnitudes, all-ones codes producing many 0xFF bytes) x bit-buffer states (garbage above the pending bits)
+    ZZ = [0, 1, 8, 16, 9, 2, 3, 10, 17, 24, 32, 25, 18, 11, 4, 5, 12, 19, 26, 33, 40, 48, 41, 34, 27, 20, 13, 6, 7, 14, 21, 28, 35, 42, 49, 56,
+          57, 50, 43, 36, 29, 22, 15, 23, 30, 37, 44, 51, 58, 59, 52, 45, 38, 31, 39, 46, 53, 60, 61, 54, 47, 55, 62, 63]
+    for r in range(ctx.n(240, 2400)):
+        b = [0] * 64
+        kind = r % 6
+        if kind == 1:
+            b[63] = rng.choice([1, -1, 1023, -1023])
+        elif kind == 2:
+            for _ in range(rng.range(1, 6)):
+                b[rng.range(1, 63)] = rng.range(-1023, 1023) or 1
+        elif kind == 3:
+            b = [rng.range(-1023, 1023) for _ in range(64)]
+        elif kind == 4:
+            b = [rng.choice([-1023, 1023, -512, 511, -1, 1]) for _ in range(64)]
+        elif kind == 5:
+            pos = 1
+            for run in rng.shuffle([15, 16, 17, 31, 32, 0, 1])[:3]:
+                pos += run
+                if pos < 64:
+                    b[ZZ[pos]] = rng.range(1, 1023) * rng.choice([1, -1])
+                    pos += 1
+        b[0] = rng.range(-1023, 1023)
+        fb = rng.choice([64, 64, 1, 2, 7, 8, 31, 32, 33, 63, rng.range(1, 64)])
+        buf = rng.below(1 << 62) * 4 + rng.below(4)
+        cases.append(("huff %d %d %d %d %d %s" % (rng.below(1000), 1 if r % 4 == 0 else 0, rng.range(-1023, 1023), buf, fb, " ".join(map(str, b))), "k-huff"))
     # range-limit table behind IDCT_range_limit(cinfo) vs the model's idct_range_limit
     cases.append(("rangelimit", "k-rangelimit"))
     # fast inverse DCT, boundary-aimed: DC only, one column, one row, sparse, dense; multiplier tables 4*q (IFAST_SCALE_BITS);
@@ -220,6 +247,9 @@ def kernel_cases(ctx):
         cases.append(("bulk quant %d %d 1" % (8 * rng.range(1, 250), 8 * rng.range(1, 250) + 12), "k-bulk-quant"))
         cases.append(("bulk quant 2041 65535 9973", "k-bulk-quant"))
     cases.append(("bulk convsamp 0 0 %d" % seed, "k-bulk-convsamp"))
+    for r in range(ctx.n(1, 6)):
+        cases.append(("bulk phuff 0 0 %d" % (seed + r), "k-bulk-phuff-first"))
+        cases.append(("bulk phuff 1 0 %d" % (seed + r), "k-bulk-phuff-refine"))
     for r in range(ctx.n(1, 10)):
         cases.append(("bulk fdct 0 0 %d" % (seed + r), "k-bulk-fdct-islow"))
         cases.append(("bulk fdct 1 1 %d" % (seed + r), "k-bulk-fdct-ifast-low"))
@@ -230,6 +260,24 @@ def kernel_cases(ctx):
         cases.append(("bulk idct 1 2 %d" % (seed + r), "k-bulk-idct-ifast-low"))
         cases.append(("bulk idct 1 0 %d" % (seed + r), "k-bulk-idct-ifast-full"))
     return cases
+
+
+def huff_stream(line, part):
+    """what a huff result means as a bit string: bytes with the stuffed zeros removed + the pending bits of the bit
+    buffer (the SIMD writer flushes at free_bits == 0, the C writer one put later: same stream, different state)"""
+    t = line.split()
+    fb0 = int(t[5])
+    bytes_s, st = part.split(";")
+    bs = [int(x) for x in bytes_s.split()]
+    out, i = [], 0
+    while i < len(bs):
+        out.append(bs[i])
+        i += 2 if bs[i] == 255 else 1
+    buf, fb = (int(x) for x in st.split())
+    n = 64 - fb
+    pend = buf & ((1 << n) - 1) if n > 0 else 0
+    # the bits that were already pending before the call come out first: they are part of both streams alike
+    return "".join("%02x" % b for b in out) + ":%d:%x" % (n, pend)
 
 
 def quant_mask(line, part):
@@ -304,7 +352,7 @@ def do_kernel(ctx, exe, drv, cases, isas):
                 ml[i], wflag = ml[i].rsplit(" ; ", 1)
             elif line.split(" ", 1)[0] in ("fdctfst", "idctfst", "fdctint", "idctint"):
                 wflag = "W1"            # no model available: do not claim more than the known finding
-            parts = res.split(" ; ")[0].split(" | ")
+            parts = (res if line.startswith("huff ") else res.split(" ; ")[0]).split(" | ")
             if len(parts) != 2 or not parts[0].startswith("S") or not parts[1].startswith("C"):
                 ctx.broken_tie("harness-protocol", "unexpected result line for %s: %s" % (line[:80], res[:120]))
                 continue
@@ -312,6 +360,8 @@ def do_kernel(ctx, exe, drv, cases, isas):
             cmd = line.split()[0]
             if cmd == "quant":
                 ok = quant_mask(line, s) == quant_mask(line, c)
+            elif cmd == "huff":
+                ok = huff_stream(line, s) == huff_stream(line, c)
             else:
                 ok = (s == c)
             if not ok and cmd == "fdctint" and wflag == "W1" and stream.endswith("garbage"):
